@@ -32,7 +32,7 @@ def run(chk):
     orders4 = [list(p) for p in itertools.permutations(['a', 'b', 'c', 'd'])]
     sel = orders4 if not q else [orders4[i] for i in (0, 7, 9, 16, 2, 23)]
     for o in sel:
-        for rep in range(1 if q else 6):
+        for rep in range(chk.th(1, 6)):
             tasks.append(dict(npairs=2, order=o, mode='sample'))
     import itertools as _it
     for i, o in enumerate(_it.permutations(['a', 'b', 'c'])):      # pair (a,b) + free variable c, every order
@@ -40,15 +40,15 @@ def run(chk):
             continue      # quick: the two orders with the free variable BETWEEN the pair, and one adjacent
         tasks.append(dict(npairs=1, order=list(o), mode='all', nfree=1))
     adj = [o for o in orders4 if abs(o.index('a') - o.index('b')) == 1 and abs(o.index('c') - o.index('d')) == 1]
-    for i in range(4 if q else 32):
+    for i in range(chk.th(4, 32)):
         tasks.append(dict(npairs=2, order=adj[(chk.seed + i) % len(adj)], mode='structured',
-                          count_T=40 if q else 150))
+                          count_T=chk.th(40, 150)))
     for t in tasks:
         t.update(shard=chk.shard('sw_c13_%d' % tid), tid=tid, seed=chk.seed * 3 + tid)
         tid += 1
     sw, res = chk.generate(sweep.c13_sweep_task, tasks)
     chk.extra['sweep_results_judged'] = sum(r['events'] for r in res)
-    sh_stream = common.stage_histories(chk, ntraces=32 if q else 1500, steps=10 if q else 40,
+    sh_stream = common.stage_histories(chk, ntraces=chk.th(32, 1500), steps=chk.th(10, 40),
                                        nvars_choices=[3, 4, 4], profile='stream', tag='st')
     chk.validate('TraceSweep', 'TraceSweep.cfg', sw)
     chk.validate('TraceBDD', 'TraceBDD.cfg', sh_stream)
